@@ -245,6 +245,7 @@ PROPS = {
         "run": "^TestC17",
         "shards": 12,
         "cross_process": True,
+        "history_dependent": True,
         "timeout_quick": 1200,
         "technique": "property-based testing (rapid): generated scenarios (constructor, options, deterministic fitness program incl. a genome-dependent one, seed, epochs) run twice in one process with unrelated work in between, and in two differently configured processes; canonical dumps (floats as bit patterns) must be identical",
         "level_text": "Generated-input search with a metamorphic oracle (same inputs => same outputs): every scenario is evolved twice with interference between the runs (another population under another seed, allocations, a garbage collection, map churn) and the complete canonical serialisation of the final population plus Population.Write text are compared; "
